@@ -596,6 +596,23 @@ impl Drv for AsyncDrv {
 // ---------------------------------------------------------------------------------------------
 // construction
 // ---------------------------------------------------------------------------------------------
+/// wait() until it succeeds: a full insert buffer makes it fail legitimately, and on executors that
+/// only run while somebody drives them the processor has to be given the chance to drain it.
+pub fn wait_retry(d: &dyn Drv, timeout: Duration) -> Result<(), String> {
+    let t0 = std::time::Instant::now();
+    loop {
+        match d.wait() {
+            Ok(()) => return Ok(()),
+            Err(e) => {
+                if t0.elapsed() > timeout {
+                    return Err(format!("wait() kept failing for {} s: {e}", timeout.as_secs()));
+                }
+                let _ = d.drive_until(&|| d.buffer().0 < d.buffer().1, Duration::from_millis(100));
+            }
+        }
+    }
+}
+
 pub fn build(flavor: Flavor, cfg: &Cfg) -> Result<Arc<dyn Drv>, String> {
     if cfg.manual_ticker {
         stretto::verif::ticker::arm_manual();
